@@ -11,6 +11,7 @@ import (
 	"crypto/sha512"
 	"encoding/base64"
 	"encoding/binary"
+	"errors"
 	"fmt"
 	"math/big"
 	"net"
@@ -18,6 +19,7 @@ import (
 	"strconv"
 	"strings"
 	"sync"
+	"sync/atomic"
 	"time"
 
 	"github.com/miekg/dns"
@@ -197,6 +199,34 @@ func refBINDText(alg uint8, priv crypto.PrivateKey) string {
 		}
 	}
 	return sb.String()
+}
+
+var keyReaderWedged atomic.Bool
+
+// readKeyWatched runs ReadPrivateKey under a watchdog (5 s for a text of about a kilobyte that
+// normally takes microseconds): a reader that does not come back is reported instead of hanging the
+// run. After the first such report no further call is made in this process (the stuck goroutine
+// cannot be stopped), so that shrinking ends at once.
+func readKeyWatched(k *dns.DNSKEY, text string) (crypto.PrivateKey, error) {
+	if keyReaderWedged.Load() {
+		return nil, errors.New("ReadPrivateKey did not return (reported earlier in this process)")
+	}
+	type res struct {
+		p crypto.PrivateKey
+		e error
+	}
+	ch := make(chan res, 1)
+	go func() {
+		p, e := k.ReadPrivateKey(strings.NewReader(text), "harness")
+		ch <- res{p, e}
+	}()
+	select {
+	case r := <-ch:
+		return r.p, r.e
+	case <-time.After(5 * time.Second):
+		keyReaderWedged.Store(true)
+		return nil, errors.New("ReadPrivateKey did not return within 5 s")
+	}
 }
 
 func checkBINDText(alg uint8, txt string, priv crypto.PrivateKey) error {
@@ -417,7 +447,7 @@ func checkKeyIO(c keyioCase) (err error) {
 		if e != nil {
 			return pbt.Errf("NewPrivateKey of the key file %s: %v\n--- the text:\n%s\n---", name, e, v)
 		}
-		p4, e := k.ReadPrivateKey(strings.NewReader(v), "harness")
+		p4, e := readKeyWatched(k, v)
 		if e == nil {
 			e = samePrivate(priv, p4)
 		}
